@@ -124,8 +124,8 @@ Section Facts.
     [ | | | | let pe := fresh "pe" in let oe := fresh "oe" in let Ec := fresh "Ecanon" in
               destruct (canon e) as [pe|oe] eqn:Ec;
               [ let Er := fresh "Er" in destruct (exn_response (agent cfg) pe) as [[|? ?]|] eqn:Er | ] ].
-  Ltac hd_cases h d :=
-    unfold handle_data, parse_first_request;
+  Ltac hd_cases0 h d :=
+    unfold handle_data, parse_first_request, call_on_client_data;
     let Ec := fresh "Ecomplete" in
     destruct (negb (is_complete (request h))) eqn:Ec;
     [ let p := fresh "p" in let e := fresh "e" in let Ep := fresh "Eparse" in
@@ -149,6 +149,9 @@ Section Facts.
             [ let Er := fresh "Er" in destruct (exn_response (agent cfg) pe) as [[|? ?]|] eqn:Er | ] ]
       | ] ].
 
+  Lemma is_complete_sbs p b sz : is_complete (set_buffer_size p b sz) = is_complete p.
+  Proof. reflexivity. Qed.
+
   Lemma build_nonempty a : build_http_response a <> [].
   Proof.
     rewrite build_shape. intros H. apply app_eq_nil in H as [_ H]. discriminate.
@@ -160,6 +163,24 @@ Section Facts.
     cbn [request plugin buffer must_flush reads_teared torn sent hq pq orc_calls ocd parse_calls exc
          client_gone mk queue_h queue_p set_request note_parse set_plugin note_orc note_ocd
          set_must_flush set_reads_teared set_torn set_exc set_client_gone set_io fst snd map exn_response is_nil].
+
+  (* the remainder hand-over that follows a first request completed with the result False *)
+  Ltac ho_cases :=
+    unfold hand_over_remainder, call_on_client_data; hsimpl;
+    repeat match goal with
+           | H : negb (is_complete ?p) = true |- context [is_complete ?p] => rewrite (proj1 (negb_true_iff _) H)
+           | H : negb (is_complete ?p) = false |- context [is_complete ?p] => rewrite (proj1 (negb_false_iff _) H)
+           end; hsimpl;
+    try match goal with |- context [match Parser.buffer ?p with _ => _ end] =>
+          let Eb := fresh "Ebuf" in destruct (Parser.buffer p) as [[|? ?]|] eqn:Eb; hsimpl end;
+    try match goal with |- context [ocdf ?k ?rq ?o ?d] =>
+          let q := fresh "q2" in let out := fresh "out2" in let Eo := fresh "Eo2" in
+          destruct (ocdf k rq o d) as [q out] eqn:Eo; destruct out as [|?e];
+          [ | let pe := fresh "pe" in let oe := fresh "oe" in let Ec := fresh "Ecanon" in
+              destruct (canon e) as [pe|oe] eqn:Ec;
+              [ let Er := fresh "Er" in destruct (exn_response (agent cfg) pe) as [[|? ?]|] eqn:Er | ] ] end;
+    hsimpl; rewrite ?is_complete_sbs.
+  Ltac hd_cases h d := hd_cases0 h d; ho_cases.
 
   (* what handle_data may change: it appends to the buffer what the plugin hook queued and then at
      most one packet of the handler's own, whose site is recorded truthfully; it never touches
